@@ -16,6 +16,7 @@ from pathlib import Path
 import pydsdl
 
 from .. import api, engine, ws
+from .. import histories as H
 
 ID = "C15"
 LEVEL = "exploration"
@@ -55,6 +56,7 @@ def plan(tier):
     shards = [{"kind": "layout", "ns": ns} for ns in NS_PATHS]
     shards += [{"kind": "names", "part": p, "parts": 8} for p in range(8)]
     shards += [{"kind": "histories"}, {"kind": "twin-roots"}]
+    shards += H.plan_shards(['nested-revisions'])
     return shards
 
 
@@ -105,6 +107,9 @@ HIST_OPS = [
 
 
 def cases(shard, tier):
+    if shard.get("kind") == "call-histories":
+        yield from H.cases_of(shard)
+        return
     if shard["kind"] == "histories":
         n = len(HIST_OPS)
         for i in range(n):
@@ -375,6 +380,8 @@ def check_twin_roots(case, R: engine.Acc):
 
 
 def check_case(case, R):
+    if case.get("kind") == "call-history":
+        return H.check_history(case["label"], R, H.project_full, 'identity-depends-on-earlier-calls', 'identity and source paths are those of the files read in THIS call')
     if case["kind"] == "history":
         return check_history(case, R)
     if case["kind"] == "twin-roots":
